@@ -13,12 +13,20 @@ variable {V : Type}
 
 /-! ## Source-level facts about the fragment -/
 
-def AllT (ρ : Store V) : Prop := ∀ x pv, ρ x = some pv → ∃ v, pv = PV.t v
+/-- Every variable holds a tensor, except those set aside as Python-scalar variables (`S.pyVars`). -/
+def AllT (S : Sem V) (ρ : Store V) : Prop := ∀ x pv, ρ x = some pv → x ∉ S.pyVars → ∃ v, pv = PV.t v
 
-theorem tensorRhs_result {S : Sem V} {ρ : Store V} (hρ : AllT ρ) {e : Expr} (ht : tensorRhs e = true)
+theorem tensorRhs_result {S : Sem V} {ρ : Store V} (hρ : AllT S ρ) {e : Expr} (hb : TFree S (bareVar e))
+    (ht : tensorRhs e = true)
     {pv : PV V} (he : evalExpr S ρ e = some pv) : ∃ v, pv = PV.t v := by
   cases e with
-  | var x => unfold evalExpr at he; exact hρ x pv he
+  | var x =>
+    unfold evalExpr at he
+    cases hρx : ρ x with
+    | some pv0 => simp only [hρx] at he; cases he; exact hρ x pv hρx (hb x (by simp [bareVar])).2
+    | none =>
+      simp only [hρx, (hb x (by simp [bareVar])).1] at he
+      cases he
   | lit l => simp [tensorRhs] at ht
   | call dom op sig args attrs =>
     unfold evalExpr at he
@@ -87,13 +95,14 @@ theorem tensorRhs_result {S : Sem V} {ρ : Store V} (hρ : AllT ρ) {e : Expr} (
   | subscript base idx => unfold evalExpr at he; cases he
   | other us => unfold evalExpr at he; cases he
 
-theorem tensorRhs_results {S : Sem V} {ρ : Store V} (hρ : AllT ρ) : ∀ {es : List Expr} {pvs : List (PV V)},
+theorem tensorRhs_results {S : Sem V} {ρ : Store V} (hρ : AllT S ρ) : ∀ {es : List Expr} {pvs : List (PV V)},
+    TFree S (bareVarL es) →
     es.all tensorRhs = true → evalExprs S ρ es = some pvs → ∀ pv, pv ∈ pvs → ∃ v, pv = PV.t v := by
   intro es
   induction es with
-  | nil => intro pvs _ he pv hp; unfold evalExprs at he; cases he; cases hp
+  | nil => intro pvs _ _ he pv hp; unfold evalExprs at he; cases he; cases hp
   | cons e es ih =>
-    intro pvs ht he pv hp
+    intro pvs hb ht he pv hp
     simp only [List.all_cons, Bool.and_eq_true] at ht
     unfold evalExprs at he
     cases hea : evalExpr S ρ e with
@@ -105,18 +114,18 @@ theorem tensorRhs_results {S : Sem V} {ρ : Store V} (hρ : AllT ρ) : ∀ {es :
         simp only [hea, hes] at he
         cases he
         rcases List.mem_cons.mp hp with rfl | hp
-        · exact tensorRhs_result hρ ht.1 hea
-        · exact ih ht.2 hes pv hp
+        · exact tensorRhs_result hρ (hb.sub (fun x hx => by simp [bareVarL, hx])) ht.1 hea
+        · exact ih (hb.sub (fun x hx => by simp [bareVarL, hx])) ht.2 hes pv hp
 
-theorem AllT.set {ρ : Store V} (h : AllT ρ) (x : Name) (v : V) : AllT (ρ.set x (.t v)) := by
+theorem AllT.set {ρ : Store V} (h : AllT S ρ) (x : Name) (v : V) : AllT S (ρ.set x (.t v)) := by
   intro y pv hy
   unfold Store.set at hy
   by_cases hyx : y = x
-  · simp only [hyx, if_true] at hy; cases hy; exact ⟨v, rfl⟩
+  · simp only [hyx, if_true] at hy; cases hy; exact fun _ => ⟨v, rfl⟩
   · simp only [hyx, if_false] at hy; exact h y pv hy
 
-theorem AllT.setMany : ∀ (xs : List Name) (pvs : List (PV V)) {ρ : Store V}, AllT ρ →
-    (∀ pv, pv ∈ pvs → ∃ v, pv = PV.t v) → AllT (ρ.setMany xs pvs) := by
+theorem AllT.setMany : ∀ (xs : List Name) (pvs : List (PV V)) {ρ : Store V}, AllT S ρ →
+    (∀ pv, pv ∈ pvs → ∃ v, pv = PV.t v) → AllT S (ρ.setMany xs pvs) := by
   intro xs
   induction xs with
   | nil => intro pvs ρ h _; cases pvs <;> exact h
@@ -173,16 +182,16 @@ theorem assignedBlock_cons' {st : Stmt} {ss : List Stmt} {d : VSet} (h : assigne
       exact ⟨a, b, rfl, rfl, rfl⟩
 
 /-- What running a statement of the fragment does to the store. -/
-structure RunOK (ρ ρ' : Store V) (d : Option VSet) : Prop where
-  allT : AllT ρ'
+structure RunOK (S : Sem V) (ρ ρ' : Store V) (d : Option VSet) : Prop where
+  allT : AllT S ρ'
   dom : ∀ x, ρ x ≠ none → ρ' x ≠ none
   frame : ∀ dd, d = some dd → ∀ x, x ∉ dd → ρ' x = ρ x
 
 mutual
 theorem ifStmt_run (S : Sem V) (fuel : Nat) : ∀ (st : Stmt) {ρ : Store V} {o : Outcome V},
-    ifStmt st = true → AllT ρ → evalStmt S fuel st ρ = some o →
-    ∃ ρ', o = .normal ρ' ∧ RunOK ρ ρ' (assignedStmt st)
-  | .assign x e, ρ, o, hi, hρ, h => by
+    ifStmt st = true → TFree S (targetsStmt st) → AllT S ρ → evalStmt S fuel st ρ = some o →
+    ∃ ρ', o = .normal ρ' ∧ RunOK S ρ ρ' (assignedStmt st)
+  | .assign x e, ρ, o, hi, hF, hρ, h => by
     simp only [ifStmt] at hi
     unfold evalStmt at h
     cases he : evalExpr S ρ e with
@@ -190,7 +199,7 @@ theorem ifStmt_run (S : Sem V) (fuel : Nat) : ∀ (st : Stmt) {ρ : Store V} {o 
     | some pv =>
       simp only [he] at h
       cases h
-      obtain ⟨v, rfl⟩ := tensorRhs_result hρ hi he
+      obtain ⟨v, rfl⟩ := tensorRhs_result hρ (hF.sub (fun y hy => by simp [targetsStmt, hy])) hi he
       refine ⟨_, rfl, hρ.set x v, ?_, ?_⟩
       · intro y hy
         unfold Store.set
@@ -202,7 +211,7 @@ theorem ifStmt_run (S : Sem V) (fuel : Nat) : ∀ (st : Stmt) {ρ : Store V} {o 
         cases hd
         unfold Store.set
         simp [show y ≠ x from by simpa using hy]
-  | .par xs es, ρ, o, hi, hρ, h => by
+  | .par xs es, ρ, o, hi, hF, hρ, h => by
     simp only [ifStmt] at hi
     unfold evalStmt at h
     cases he : evalExprs S ρ es with
@@ -212,17 +221,17 @@ theorem ifStmt_run (S : Sem V) (fuel : Nat) : ∀ (st : Stmt) {ρ : Store V} {o 
       by_cases hl : pvs.length = xs.length
       · simp only [hl, if_true] at h
         cases h
-        refine ⟨_, rfl, AllT.setMany xs pvs hρ (tensorRhs_results hρ hi he), setMany_dom_mono xs pvs ρ, ?_⟩
+        refine ⟨_, rfl, AllT.setMany xs pvs hρ (tensorRhs_results hρ (hF.sub (fun y hy => by simp [targetsStmt, hy])) hi he), setMany_dom_mono xs pvs ρ, ?_⟩
         intro dd hd y hy
         simp only [assignedStmt] at hd
         cases hd
         exact setMany_frame xs pvs ρ y (fun hm => hy (mem_vofList.mpr hm))
       · simp [hl] at h
-  | .skip, ρ, o, _, hρ, h => by
+  | .skip, ρ, o, _, hF, hρ, h => by
     unfold evalStmt at h
     cases h
     exact ⟨ρ, rfl, hρ, fun _ hx => hx, fun _ _ _ _ => rfl⟩
-  | .ite c t e, ρ, o, hi, hρ, h => by
+  | .ite c t e, ρ, o, hi, hF, hρ, h => by
     simp only [ifStmt, Bool.and_eq_true] at hi
     unfold evalStmt at h
     cases hc : evalExpr S ρ c with
@@ -235,7 +244,7 @@ theorem ifStmt_run (S : Sem V) (fuel : Nat) : ∀ (st : Stmt) {ρ : Store V} {o 
         cases b with
         | true =>
           simp only [ht] at h
-          obtain ⟨ρ', ho, r⟩ := ifBlock_run S fuel t hi.1.2 hρ h
+          obtain ⟨ρ', ho, r⟩ := ifBlock_run S fuel t hi.1.2 (hF.sub (fun y hy => by simp [targetsStmt, hy])) hρ h
           refine ⟨ρ', ho, r.allT, r.dom, ?_⟩
           intro dd hd y hy
           simp only [assignedStmt] at hd
@@ -250,7 +259,7 @@ theorem ifStmt_run (S : Sem V) (fuel : Nat) : ∀ (st : Stmt) {ρ : Store V} {o 
               exact r.frame a hta y (fun hm => hy (mem_vunion.mpr (Or.inl hm)))
         | false =>
           simp only [ht] at h
-          obtain ⟨ρ', ho, r⟩ := ifBlock_run S fuel e hi.2 hρ h
+          obtain ⟨ρ', ho, r⟩ := ifBlock_run S fuel e hi.2 (hF.sub (fun y hy => by simp [targetsStmt, hy])) hρ h
           refine ⟨ρ', ho, r.allT, r.dom, ?_⟩
           intro dd hd y hy
           simp only [assignedStmt] at hd
@@ -263,29 +272,29 @@ theorem ifStmt_run (S : Sem V) (fuel : Nat) : ∀ (st : Stmt) {ρ : Store V} {o 
               simp only [hta, hea] at hd
               cases hd
               exact r.frame b' hea y (fun hm => hy (mem_vunion.mpr (Or.inr hm)))
-  | .tuple _ _, _, _, hi, _, _ => by simp [ifStmt] at hi
-  | .badAssign _ _, _, _, hi, _, _ => by simp [ifStmt] at hi
-  | .for_ _ _ _ _, _, _, hi, _, _ => by simp [ifStmt] at hi
-  | .while_ _ _, _, _, hi, _, _ => by simp [ifStmt] at hi
-  | .brk _, _, _, hi, _, _ => by simp [ifStmt] at hi
-  | .ret _ _, _, _, hi, _, _ => by simp [ifStmt] at hi
-  | .unsupported, _, _, hi, _, _ => by simp [ifStmt] at hi
+  | .tuple _ _, _, _, hi, _, _, _ => by simp [ifStmt] at hi
+  | .badAssign _ _, _, _, hi, _, _, _ => by simp [ifStmt] at hi
+  | .for_ _ _ _ _, _, _, hi, _, _, _ => by simp [ifStmt] at hi
+  | .while_ _ _, _, _, hi, _, _, _ => by simp [ifStmt] at hi
+  | .brk _, _, _, hi, _, _, _ => by simp [ifStmt] at hi
+  | .ret _ _, _, _, hi, _, _, _ => by simp [ifStmt] at hi
+  | .unsupported, _, _, hi, _, _, _ => by simp [ifStmt] at hi
 theorem ifBlock_run (S : Sem V) (fuel : Nat) : ∀ (ss : List Stmt) {ρ : Store V} {o : Outcome V},
-    ifBlock ss = true → AllT ρ → evalBlock S fuel ss ρ = some o →
-    ∃ ρ', o = .normal ρ' ∧ RunOK ρ ρ' (assignedBlock ss)
-  | [], ρ, o, _, hρ, h => by
+    ifBlock ss = true → TFree S (targetsBlock ss) → AllT S ρ → evalBlock S fuel ss ρ = some o →
+    ∃ ρ', o = .normal ρ' ∧ RunOK S ρ ρ' (assignedBlock ss)
+  | [], ρ, o, _, hF, hρ, h => by
     unfold evalBlock at h
     cases h
     exact ⟨ρ, rfl, hρ, fun _ hx => hx, fun _ _ _ _ => rfl⟩
-  | st :: ss, ρ, o, hi, hρ, h => by
+  | st :: ss, ρ, o, hi, hF, hρ, h => by
     simp only [ifBlock, Bool.and_eq_true] at hi
     unfold evalBlock at h
     cases hs : evalStmt S fuel st ρ with
     | none => simp [hs] at h
     | some o1 =>
-      obtain ⟨ρ1, rfl, r1⟩ := ifStmt_run S fuel st hi.1 hρ hs
+      obtain ⟨ρ1, rfl, r1⟩ := ifStmt_run S fuel st hi.1 hF.head.1 hρ hs
       simp only [hs] at h
-      obtain ⟨ρ2, ho, r2⟩ := ifBlock_run S fuel ss hi.2 r1.allT h
+      obtain ⟨ρ2, ho, r2⟩ := ifBlock_run S fuel ss hi.2 hF.head.2 r1.allT h
       refine ⟨ρ2, ho, r2.allT, fun x hx => r2.dom x (r1.dom x hx), ?_⟩
       intro dd hd y hy
       obtain ⟨a, b, ha, hb, rfl⟩ := assignedBlock_cons' hd
@@ -380,9 +389,9 @@ theorem StoreRel.of_le {S : Sem V} {ρa ρb : Store V} {L : Locals} {env : Env V
 /-- The simulation invariant at a program point whose live set is `Lv`. -/
 structure Inv (S : Sem V) (Lv : VSet) (ρ : Store V) (L : Locals) (env : Env V) (s : St) : Prop where
   vis : VisOK s.used L
-  noattr : NoAttrBind L
+  noattr : NoAttrBind S L
   cast : CastSub s
-  allT : AllT ρ
+  allT : AllT S ρ
   rel : StoreRel S (restrict ρ Lv) L env s.castable
   bound : ∀ x n, lookup L x = some (.val n) → ρ x ≠ none
 
@@ -398,7 +407,7 @@ theorem lookup_push (L : Locals) (x : Name) : lookup ([] :: L) x = lookup L x :=
 theorem Inv.push {S : Sem V} {Lv : VSet} {ρ : Store V} {L : Locals} {env : Env V} {s : St}
     (h : Inv S Lv ρ L env s) : Inv S Lv ρ ([] :: L) env s :=
   { vis := h.vis.push
-    noattr := fun x p ty hl => h.noattr x p ty (by rw [← lookup_push]; exact hl)
+    noattr := h.noattr.push
     cast := h.cast
     allT := h.allT
     rel := fun y q hy => by
@@ -446,7 +455,7 @@ theorem setMany_same : ∀ (xs : List Name) (pvs : List (PV V)) (ρa ρb : Store
 
 theorem assign_step (S : Sem V) (fuel : Nat) (hConst : ∀ l, ∃ c, constOf S l = some c) {x : Name} {e : Expr}
     {lo : VSet} {ρ ρ' : Store V} {L L' : Locals} {env : Env V} {s s' : St} {ns : List Node}
-    (hi : tensorRhs e = true)
+    (hi : tensorRhs e = true) (hF : TFree S (targetsStmt (.assign x e)))
     (hinv : Inv S (liveInStmt (.assign x e) lo) ρ L env s)
     (he : evalStmt S fuel (.assign x e) ρ = some (.normal ρ'))
     (h : convStmt L (.assign x e) lo s = .ok ((L', ns), s')) :
@@ -457,13 +466,13 @@ theorem assign_step (S : Sem V) (fuel : Nat) (hConst : ∀ l, ∃ c, constOf S l
   | some pv =>
     simp only [hee] at he
     cases he
-    obtain ⟨v, rfl⟩ := tensorRhs_result hinv.allT hi hee
+    obtain ⟨v, rfl⟩ := tensorRhs_result hinv.allT (hF.sub (fun y hy => by simp [targetsStmt, hy])) hi hee
     have hsub : ∀ y, y ∈ usedVars e → y ∈ liveInStmt (.assign x e) lo := by
       intro y hy; unfold liveInStmt; exact mem_vunion.mpr (Or.inr hy)
     have hee' : evalExpr S (restrict ρ (liveInStmt (.assign x e) lo)) e = some (.t v) := by
       rw [evalExpr_restrict S ρ _ e hsub]; exact hee
     obtain ⟨env1, ev1, hR1, x1, c1, hL1, hA1, m1⟩ :=
-      assign_sim S fuel hConst hinv.noattr hinv.vis hinv.rel hinv.cast hee' h
+      assign_sim S fuel hConst hinv.noattr hinv.vis hinv.rel hinv.cast (hF x (by simp [targetsStmt])).1 hee' h
     refine ⟨env1, ev1, ⟨hL1, hA1, c1, hinv.allT.set x v, ?_, ?_⟩, x1, m1⟩
     · apply hR1.of_le
       intro y q hy
@@ -492,7 +501,7 @@ theorem assign_step (S : Sem V) (fuel : Nat) (hConst : ∀ l, ∃ c, constOf S l
 
 theorem par_step (S : Sem V) (fuel : Nat) (hConst : ∀ l, ∃ c, constOf S l = some c) {xs : List Name}
     {es : List Expr} {lo : VSet} {ρ ρ' : Store V} {L L' : Locals} {env : Env V} {s s' : St} {ns : List Node}
-    (hi : es.all tensorRhs = true)
+    (hi : es.all tensorRhs = true) (hF : TFree S (targetsStmt (.par xs es)))
     (hinv : Inv S (liveInStmt (.par xs es) lo) ρ L env s)
     (he : evalStmt S fuel (.par xs es) ρ = some (.normal ρ'))
     (h : convStmt L (.par xs es) lo s = .ok ((L', ns), s')) :
@@ -510,9 +519,9 @@ theorem par_step (S : Sem V) (fuel : Nat) (hConst : ∀ l, ∃ c, constOf S l = 
       have hee' : evalExprs S (restrict ρ (liveInStmt (.par xs es) lo)) es = some pvs := by
         rw [evalExprs_restrict S ρ _ es hsub]; exact hee
       obtain ⟨env1, ev1, hR1, x1, c1, hL1, hA1, m1⟩ :=
-        par_sim S fuel hConst hinv.noattr hinv.vis hinv.rel hinv.cast hee' h
+        par_sim S fuel hConst hinv.noattr hinv.vis hinv.rel hinv.cast (fun y hy => (hF y (by simp [targetsStmt, hy])).1) hee' h
       refine ⟨env1, ev1, ⟨hL1, hA1, c1,
-        AllT.setMany xs pvs hinv.allT (tensorRhs_results hinv.allT hi hee), ?_, ?_⟩, x1, m1⟩
+        AllT.setMany xs pvs hinv.allT (tensorRhs_results hinv.allT (hF.sub (fun y hy => by simp [targetsStmt, hy])) hi hee), ?_, ?_⟩, x1, m1⟩
       · apply hR1.of_le
         intro y q hy
         obtain ⟨hm, hq⟩ := restrict_some.mp hy
@@ -579,7 +588,7 @@ theorem emitCopy_castable {o sug x : Name} {ns : List Node} {s s' : St}
 theorem blockOutputs_sim (S : Sem V) (fuel : Nat) (hId : ∀ v, S.op "" "Identity" [some v] [] = some [v])
     {ρ' : Store V} (Lt : Locals) :
     ∀ (vs : List Name) (sofar : List Node) (outs : List Name) {env : Env V} {s s' : St} {os : List Name}
-      {ns : List Node}, VisOK s.used Lt → FreeOf Lt vs →
+      {ns : List Node}, VisOK s.used Lt → FreeOf S Lt vs →
       (∀ pv, pv ∈ vs → ∀ n, lookup Lt pv = some (.val n) → ∃ v, env n = some v ∧ ρ' pv = some (.t v)) →
       blockOutputs Lt vs sofar outs s = .ok ((os, ns), s') →
       ∃ env', evalNodes S fuel env ns = some env' ∧ Ext env env' s s' ∧ s'.castable = s.castable ∧ Mono s s'
@@ -594,7 +603,7 @@ theorem blockOutputs_sim (S : Sem V) (fuel : Nat) (hId : ∀ v, S.op "" "Identit
     exact ⟨env, evalNodes_nil _ _ _, Ext.refl _ _, rfl, Mono.refl _, All2.nil⟩
   | cons pv rest ih =>
     intro sofar outs env s s' os ns hL hA hf h
-    have hAr : FreeOf Lt rest := hA.sub (fun x hx => List.mem_cons_of_mem _ hx)
+    have hAr : FreeOf S Lt rest := hA.sub (fun x hx => List.mem_cons_of_mem _ hx)
     have hfr := blockOutputs_fresh Lt _ _ _ h
     unfold blockOutputs at h
     -- the binding the converter reads, whichever way it finds it
@@ -602,7 +611,7 @@ theorem blockOutputs_sim (S : Sem V) (fuel : Nat) (hId : ∀ v, S.op "" "Identit
         ∃ n v, b = .val n ∧ env n = some v ∧ ρ' pv = some (.t v) ∧ n ∈ s.used := by
       intro b hb
       cases b with
-      | attr p ty => exact absurd hb (hA pv List.mem_cons_self p ty)
+      | attr p ty => exact absurd hb ((hA pv List.mem_cons_self).1 p ty)
       | val n =>
         obtain ⟨v, h1, h2⟩ := hf pv List.mem_cons_self n hb
         exact ⟨n, v, rfl, h1, h2, hL.lookup hb⟩
@@ -1387,12 +1396,12 @@ theorem branch_run (S : Sem V) (fuel : Nat) (hId : ∀ v, S.op "" "Identity" [so
       convStmts ([] :: L) ss lo s = .ok ((L', ns), s') →
       ∃ env', evalNodes S fuel env ns = some env' ∧ Inv S lo ρ' L' env' s' ∧ Ext env env' s s' ∧ Mono s s')
     (hinv : Inv S (liveInBlock ss lo) ρ L env1 sA) (hld : ∀ x, x ∈ liveDefs → x ∈ lo)
-    (hfreeB : FreeOf Lb liveDefs)
+    (hfreeB : FreeOf S Lb liveDefs)
     (he : evalBlock S fuel ss ρ = some (.normal ρ'))
     (h2 : convStmts ([] :: L) ss lo sA = .ok ((Lb, bn), sB))
     (h3 : blockOutputs Lb liveDefs bn [] sB = .ok ((bo, bn2), sC)) :
     ∃ envB rs, evalNodes S fuel env1 (bn ++ bn2) = some envB ∧ bo.mapM envB = some rs
-      ∧ All2 (fun r pv => ρ' pv = some (PV.t r)) rs liveDefs ∧ AllT ρ' := by
+      ∧ All2 (fun r pv => ρ' pv = some (PV.t r)) rs liveDefs ∧ AllT S ρ' := by
   obtain ⟨envT, evT, invT, _, _⟩ := IH hinv.push he h2
   have hfT : ∀ pv, pv ∈ liveDefs → ∀ n, lookup Lb pv = some (.val n) →
       ∃ v, envT n = some v ∧ ρ' pv = some (.t v) := by
@@ -1400,7 +1409,7 @@ theorem branch_run (S : Sem V) (fuel : Nat) (hId : ∀ v, S.op "" "Identity" [so
     cases hq : ρ' pv with
     | none => exact absurd hq (invT.bound pv n hl)
     | some q =>
-      obtain ⟨v, rfl⟩ := invT.allT pv q hq
+      obtain ⟨v, rfl⟩ := invT.allT pv q hq (hfreeB pv hpv).2
       obtain ⟨n', hl', hr⟩ := invT.rel pv _ (restrict_some.mpr ⟨hld pv hpv, hq⟩)
       rw [hl] at hl'
       cases hl'
@@ -1411,17 +1420,18 @@ theorem branch_run (S : Sem V) (fuel : Nat) (hId : ∀ v, S.op "" "Identity" [so
 
 mutual
 theorem stmt_step (S : Sem V) (fuel : Nat) (hConst : ∀ l, ∃ c, constOf S l = some c)
-    (hId : ∀ v, S.op "" "Identity" [some v] [] = some [v]) :
+    (hId : ∀ v, S.op "" "Identity" [some v] [] = some [v])
+    (hTL : ∀ l c b, constOf S l = some c → truthPV S (.py l) = some b → S.truth c = some b) :
     ∀ (st : Stmt) (lo : VSet) {ρ ρ' : Store V} {L L' : Locals} {env : Env V} {s s' : St} {ns : List Node},
-    ifStmt st = true → FreeOf L (targetsStmt st) → Inv S (liveInStmt st lo) ρ L env s →
+    ifStmt st = true → FreeOf S L (targetsStmt st) → Inv S (liveInStmt st lo) ρ L env s →
     evalStmt S fuel st ρ = some (.normal ρ') → convStmt L st lo s = .ok ((L', ns), s') →
     ∃ env', evalNodes S fuel env ns = some env' ∧ Inv S lo ρ' L' env' s' ∧ Ext env env' s s' ∧ Mono s s'
-  | .assign x e, lo, ρ, ρ', L, L', env, s, s', ns, hi, _, hinv, he, h => by
+  | .assign x e, lo, ρ, ρ', L, L', env, s, s', ns, hi, hfree, hinv, he, h => by
     simp only [ifStmt] at hi
-    exact assign_step S fuel hConst hi hinv he h
-  | .par xs es, lo, ρ, ρ', L, L', env, s, s', ns, hi, _, hinv, he, h => by
+    exact assign_step S fuel hConst hi (TFree.of_free hinv.noattr hfree) hinv he h
+  | .par xs es, lo, ρ, ρ', L, L', env, s, s', ns, hi, hfree, hinv, he, h => by
     simp only [ifStmt] at hi
-    exact par_step S fuel hConst hi hinv he h
+    exact par_step S fuel hConst hi (TFree.of_free hinv.noattr hfree) hinv he h
   | .skip, lo, ρ, ρ', L, L', env, s, s', ns, hi, _, hinv, he, h => by
     unfold evalStmt at he
     cases he
@@ -1440,9 +1450,8 @@ theorem stmt_step (S : Sem V) (fuel : Nat) (hConst : ∀ l, ∃ c, constOf S l =
     cases hc : evalExpr S ρ c with
     | none => simp [hc] at he
     | some cv =>
-      obtain ⟨cvv, rfl⟩ := tensorRhs_result hinv.allT hi.1.1 hc
-      simp only [hc, truthPV] at he
-      cases hb : S.truth cvv with
+      simp only [hc] at he
+      cases hb : truthPV S cv with
       | none => simp [hb] at he
       | some b =>
         simp only [hb] at he
@@ -1489,19 +1498,29 @@ theorem stmt_step (S : Sem V) (fuel : Nat) (hConst : ∀ l, ∃ c, constOf S l =
                     cases ha
                     exact ⟨ta, ea, rfl, rfl, rfl⟩
               have hld : ∀ x, x ∈ vinter lo defs → x ∈ lo := fun x hx => (mem_vinter.mp hx).1
-              have hfreeT : FreeOf ([] :: L) (targetsBlock t) :=
+              have hfreeT : FreeOf S ([] :: L) (targetsBlock t) :=
                 (hfree.sub (fun x hx => by simp [targetsStmt, hx])).mono (AttrMono.push L)
-              have hfreeE : FreeOf ([] :: L) (targetsBlock e) :=
+              have hfreeE : FreeOf S ([] :: L) (targetsBlock e) :=
                 (hfree.sub (fun x hx => by simp [targetsStmt, hx])).mono (AttrMono.push L)
-              have hfreeD : FreeOf ([] :: L) (vinter lo defs) :=
+              have hfreeD : FreeOf S ([] :: L) (vinter lo defs) :=
                 (hfree.sub (fun x hx => assigned_sub_targets _ ha x (mem_vinter.mp hx).2)).mono (AttrMono.push L)
+              have hTF : TFree S (targetsStmt (.ite c t e)) := TFree.of_free hinv.noattr hfree
+              have hTD : ∀ x, x ∈ vinter lo defs → S.attrLit x = none := fun x hx =>
+                (hTF x (assigned_sub_targets _ ha x (mem_vinter.mp hx).2)).1
               -- condition
               have hLv : ∀ y, y ∈ usedVars c → y ∈ liveInStmt (.ite c t e) lo := by
                 intro y hy; unfold liveInStmt; exact mem_vunion.mpr (Or.inr hy)
-              have hc' : evalExpr S (restrict ρ (liveInStmt (.ite c t e) lo)) c = some (.t cvv) := by
+              have hc' : evalExpr S (restrict ρ (liveInStmt (.ite c t e) lo)) c = some cv := by
                 rw [evalExpr_restrict S ρ _ c hLv]; exact hc
               obtain ⟨env1, ev1, r1, x1, c1⟩ :=
                 convExpr_sim S fuel hConst _ L hinv.noattr c _ hinv.vis hinv.rel hinv.cast hc' h1
+              -- the condition: a tensor, or the constant of a Python value (an attribute parameter `if flag:`)
+              obtain ⟨cvv, htest, hbt⟩ : ∃ cvv, env1 test = some cvv ∧ S.truth cvv = some b := by
+                cases cv with
+                | t v => exact ⟨v, r1.1, hb⟩
+                | py l =>
+                  obtain ⟨⟨cc, hcc, hev⟩, _⟩ := r1
+                  exact ⟨cc, hev, hTL l cc b hcc hb⟩
               have k1 := convExpr_cast L c _ h1
               have hinv1 : Inv S (liveInStmt (.ite c t e) lo) ρ L env1 s1 := hinv.ext x1 k1.mono c1
               have k2 := ifBlock_cast _ t lo hi.1.2 h2
@@ -1513,7 +1532,7 @@ theorem stmt_step (S : Sem V) (fuel : Nat) (hConst : ∀ l, ∃ c, constOf S l =
               have hc6 := genUniques_castable _ h6
               have hnotin : ∀ n, n ∈ s.used → n ∉ renamed := fun n hn hm => (f6.2 n hm).1 (k15.mono n hn)
               -- everything after the node evaluation is common to both branches
-              have finish : ∀ (rs : List V) (aset : VSet), (∀ x, x ∈ aset → x ∈ defs) → RunOK ρ ρ' (some aset) →
+              have finish : ∀ (rs : List V) (aset : VSet), (∀ x, x ∈ aset → x ∈ defs) → RunOK S ρ ρ' (some aset) →
                   All2 (fun r pv => ρ' pv = some (PV.t r)) rs (vinter lo defs) →
                   evalNodes S fuel env1 [Node.ifN test renamed (tn ++ tn2) to (en ++ en2) eo]
                     = some (env1.setMany renamed rs) →
@@ -1525,7 +1544,7 @@ theorem stmt_step (S : Sem V) (fuel : Nat) (hConst : ∀ l, ∃ c, constOf S l =
                   ⟨fun n hn => by rw [envSetMany_frame renamed rs env1 n (hnotin n hn)]; exact x1.envSame n hn,
                    hcast.ext⟩
                 refine ⟨_, evalNodes_seq ev1 evNode, ?_, xfin, hfr.1⟩
-                refine ⟨hsc.2.mono (fun y hy => after_in_used hfr hy), hinv.noattr.bindVals _ _,
+                refine ⟨hsc.2.mono (fun y hy => after_in_used hfr hy), hinv.noattr.bindVals _ _ hTD,
                   hcast.sub hinv.cast, run.allT, ?_, ?_⟩
                 · intro y q hy
                   obtain ⟨hm, hq⟩ := restrict_some.mp hy
@@ -1554,21 +1573,21 @@ theorem stmt_step (S : Sem V) (fuel : Nat) (hConst : ∀ l, ∃ c, constOf S l =
               cases b with
               | true =>
                 simp only at he
-                obtain ⟨ρt, hρt, runT⟩ := ifBlock_run S fuel t hi.1.2 hinv.allT he
+                obtain ⟨ρt, hρt, runT⟩ := ifBlock_run S fuel t hi.1.2 (hTF.sub (fun y hy => by simp [targetsStmt, hy])) hinv.allT he
                 cases hρt
                 have hinvT : Inv S (liveInBlock t lo) ρ L env1 s1 := hinv1.mono (by
                   intro y hy; unfold liveInStmt
                   exact mem_vunion.mpr (Or.inl (mem_vunion.mpr (Or.inl hy))))
                 obtain ⟨envB, rs, evB, hrs, hall, _⟩ := branch_run S fuel hId
-                  (fun hi' he' hc' => block_step S fuel hConst hId t lo hi.1.2 hfreeT hi' he' hc') hinvT hld
+                  (fun hi' he' hc' => block_step S fuel hConst hId hTL t lo hi.1.2 hfreeT hi' he' hc') hinvT hld
                   (hfreeD.mono (convStmts_attrMono _ _ _ h2)) he h2 h3
                 have hlen : rs.length = renamed.length := by rw [all2_len hall, l6]
                 refine finish rs ta (fun x hx => by rw [hdefs]; exact mem_vunion.mpr (Or.inl hx))
                   (by rw [← hta]; exact runT) hall ?_
-                simp [evalNodes, evalNode, r1.1, hb, evB, Env.getMany, hrs, hlen]
+                simp [evalNodes, evalNode, htest, hbt, evB, Env.getMany, hrs, hlen]
               | false =>
                 simp only at he
-                obtain ⟨ρt, hρt, runE⟩ := ifBlock_run S fuel e hi.2 hinv.allT he
+                obtain ⟨ρt, hρt, runE⟩ := ifBlock_run S fuel e hi.2 (hTF.sub (fun y hy => by simp [targetsStmt, hy])) hinv.allT he
                 cases hρt
                 have k13 : CastOK s1 s3 := k2.trans k3
                 have hinv3 : Inv S (liveInStmt (.ite c t e) lo) ρ L env1 s3 :=
@@ -1577,12 +1596,12 @@ theorem stmt_step (S : Sem V) (fuel : Nat) (hConst : ∀ l, ∃ c, constOf S l =
                   intro y hy; unfold liveInStmt
                   exact mem_vunion.mpr (Or.inl (mem_vunion.mpr (Or.inr hy))))
                 obtain ⟨envB, rs, evB, hrs, hall, _⟩ := branch_run S fuel hId
-                  (fun hi' he' hc' => block_step S fuel hConst hId e lo hi.2 hfreeE hi' he' hc') hinvE hld
+                  (fun hi' he' hc' => block_step S fuel hConst hId hTL e lo hi.2 hfreeE hi' he' hc') hinvE hld
                   (hfreeD.mono (convStmts_attrMono _ _ _ h4)) he h4 h5
                 have hlen : rs.length = renamed.length := by rw [all2_len hall, l6]
                 refine finish rs ea (fun x hx => by rw [hdefs]; exact mem_vunion.mpr (Or.inr hx))
                   (by rw [← hea]; exact runE) hall ?_
-                simp [evalNodes, evalNode, r1.1, hb, evB, Env.getMany, hrs, hlen]
+                simp [evalNodes, evalNode, htest, hbt, evB, Env.getMany, hrs, hlen]
   | .tuple _ _, _, _, _, _, _, _, _, _, _, hi, _, _, _, _ => by simp [ifStmt] at hi
   | .badAssign _ _, _, _, _, _, _, _, _, _, _, hi, _, _, _, _ => by simp [ifStmt] at hi
   | .for_ _ _ _ _, _, _, _, _, _, _, _, _, _, hi, _, _, _, _ => by simp [ifStmt] at hi
@@ -1591,9 +1610,10 @@ theorem stmt_step (S : Sem V) (fuel : Nat) (hConst : ∀ l, ∃ c, constOf S l =
   | .ret _ _, _, _, _, _, _, _, _, _, _, hi, _, _, _, _ => by simp [ifStmt] at hi
   | .unsupported, _, _, _, _, _, _, _, _, _, hi, _, _, _, _ => by simp [ifStmt] at hi
 theorem block_step (S : Sem V) (fuel : Nat) (hConst : ∀ l, ∃ c, constOf S l = some c)
-    (hId : ∀ v, S.op "" "Identity" [some v] [] = some [v]) :
+    (hId : ∀ v, S.op "" "Identity" [some v] [] = some [v])
+    (hTL : ∀ l c b, constOf S l = some c → truthPV S (.py l) = some b → S.truth c = some b) :
     ∀ (ss : List Stmt) (lo : VSet) {ρ ρ' : Store V} {L L' : Locals} {env : Env V} {s s' : St} {ns : List Node},
-    ifBlock ss = true → FreeOf L (targetsBlock ss) → Inv S (liveInBlock ss lo) ρ L env s →
+    ifBlock ss = true → FreeOf S L (targetsBlock ss) → Inv S (liveInBlock ss lo) ρ L env s →
     evalBlock S fuel ss ρ = some (.normal ρ') → convStmts L ss lo s = .ok ((L', ns), s') →
     ∃ env', evalNodes S fuel env ns = some env' ∧ Inv S lo ρ' L' env' s' ∧ Ext env env' s s' ∧ Mono s s'
   | [], lo, ρ, ρ', L, L', env, s, s', ns, _, _, hinv, he, h => by
@@ -1611,7 +1631,7 @@ theorem block_step (S : Sem V) (fuel : Nat) (hConst : ∀ l, ∃ c, constOf S l 
     cases hs : evalStmt S fuel st ρ with
     | none => simp [hs] at he
     | some o1 =>
-      obtain ⟨ρ1, rfl, _⟩ := ifStmt_run S fuel st hi.1 hinv.allT hs
+      obtain ⟨ρ1, rfl, _⟩ := ifStmt_run S fuel st hi.1 (TFree.of_free hinv.noattr hfree.head.1) hinv.allT hs
       simp only [hs] at he
       unfold convStmts at h
       mbind h with p s1 h1
@@ -1622,8 +1642,8 @@ theorem block_step (S : Sem V) (fuel : Nat) (hConst : ∀ l, ∃ c, constOf S l 
       try dsimp only at h
       obtain ⟨q1, q2⟩ := pure_ok h
       cases q1; subst q2
-      obtain ⟨env1, ev1, inv1, x1, m1⟩ := stmt_step S fuel hConst hId st _ hi.1 hfree.head.1 hinv hs h1
-      obtain ⟨env2, ev2, inv2, x2, m2⟩ := block_step S fuel hConst hId ss lo hi.2
+      obtain ⟨env1, ev1, inv1, x1, m1⟩ := stmt_step S fuel hConst hId hTL st _ hi.1 hfree.head.1 hinv hs h1
+      obtain ⟨env2, ev2, inv2, x2, m2⟩ := block_step S fuel hConst hId hTL ss lo hi.2
         (hfree.head.2.mono (convStmt_attrMono L st _ h1)) inv1 he h2
       exact ⟨env2, evalNodes_seq ev1 ev2, inv2, x1.trans m1 x2, m1.trans m2⟩
 end
@@ -1650,10 +1670,11 @@ theorem ifLine_cons {st : Stmt} {ss : List Stmt} (h : ifLine (st :: ss) = true) 
   | _ => right; simpa using h
 
 theorem convTop_if_sim (S : Sem V) (fuel : Nat) (hConst : ∀ l, ∃ c, constOf S l = some c)
-    (hId : ∀ v, S.op "" "Identity" [some v] [] = some [v]) {inputs : List Name} {rc : Option Nat} :
+    (hId : ∀ v, S.op "" "Identity" [some v] [] = some [v])
+    (hTL : ∀ l c b, constOf S l = some c → truthPV S (.py l) = some b → S.truth c = some b) {inputs : List Name} {rc : Option Nat} :
     ∀ (body : List Stmt) (L : Locals) {ρ : Store V} {env : Env V} {s s' : St} {ns : List Node}
       {outs : List Name} {pvs : List (PV V)} {vs : List V},
-      ifLine body = true → FreeOf L (targetsBlock body) → Inv S (liveInBlock body []) ρ L env s →
+      ifLine body = true → FreeOf S L (targetsBlock body) → Inv S (liveInBlock body []) ρ L env s →
       evalBlock S fuel body ρ = some (.returned pvs) → pvs.mapM (toTensor S) = some vs →
       convTop inputs rc L body [] s = .ok ((ns, outs), s') →
       ∃ env', evalNodes S fuel env ns = some env' ∧ outs.mapM env' = some vs := by
@@ -1706,7 +1727,7 @@ theorem convTop_if_sim (S : Sem V) (fuel : Nat) (hConst : ∀ l, ∃ c, constOf 
       cases hs : evalStmt S fuel st ρ with
       | none => simp [hs] at he
       | some o1 =>
-        obtain ⟨ρ1, rfl, _⟩ := ifStmt_run S fuel st hst hinv.allT hs
+        obtain ⟨ρ1, rfl, _⟩ := ifStmt_run S fuel st hst (TFree.of_free hinv.noattr hfree.head.1) hinv.allT hs
         simp only [hs] at he
         have hnr : ∀ es b, st ≠ .ret es b := by
           intro es b hc
@@ -1721,7 +1742,7 @@ theorem convTop_if_sim (S : Sem V) (fuel : Nat) (hConst : ∀ l, ∃ c, constOf 
         try dsimp only at h
         obtain ⟨q1, q2⟩ := pure_ok h
         cases q1
-        obtain ⟨env1, ev1, inv1, _, _⟩ := stmt_step S fuel hConst hId st _ hst hfree.head.1 hinv hs h1
+        obtain ⟨env1, ev1, inv1, _, _⟩ := stmt_step S fuel hConst hId hTL st _ hst hfree.head.1 hinv hs h1
         obtain ⟨env2, ev2, hm2⟩ := ih L1 hss (hfree.head.2.mono (convStmt_attrMono L st _ h1)) inv1 he hv h2
         exact ⟨env2, evalNodes_seq ev1 ev2, hm2⟩
 
@@ -1750,8 +1771,11 @@ theorem paramFrame_key : ∀ (ps : List Param) (x n : Name), (x, Bind.val n) ∈
 
 /-- **Refinement for functions made of assignments and nested `if`/`else`.** -/
 theorem convert_correct_if (S : Sem V) (hConst : ∀ l, ∃ c, constOf S l = some c)
-    (hId : ∀ v, S.op "" "Identity" [some v] [] = some [v]) {f : Func} {g : Graph}
+    (hId : ∀ v, S.op "" "Identity" [some v] [] = some [v])
+    (hTL : ∀ l c b, constOf S l = some c → truthPV S (.py l) = some b → S.truth c = some b) {f : Func} {g : Graph}
     (hil : ifLine f.body = true) (hattr : ∀ p, p ∈ attrParams f.params → p ∉ targetsBlock f.body)
+    (hσ : ∀ x l, S.attrLit x = some l → ∃ ty, Param.attr x ty ∈ f.params ∧ AttrVal S x ty l)
+    (hPy : ∀ x, x ∈ S.pyVars → x ∉ targetsBlock f.body)
     (hnames : (f.params.map Param.name).Nodup) (h : convert f = .ok g)
     {fuel : Nat} {args vs : List V} (he : evalFunc S fuel f args = some vs) :
     evalGraph S fuel g args = some vs := by
@@ -1792,12 +1816,12 @@ theorem convert_correct_if (S : Sem V) (hConst : ∀ l, ∃ c, constOf S l = som
                 (Store.setMany (fun _ => none) (tensorParams f.params) (args.map PV.t))
                 [paramFrame f.params] (Env.setMany (fun _ => none) (tensorParams f.params) args)
                 { used := (tensorParams f.params).reverse, next := 0, castable := [] } := by
-              refine ⟨hL, noAttrBind_paramFrame _, (fun n hn => by cases hn), ?_, ?_, ?_⟩
+              refine ⟨hL, noAttrBind_paramFrame _ hnames hσ, (fun n hn => by cases hn), ?_, ?_, ?_⟩
               · intro x pv hx
                 rw [hrelst] at hx
                 cases hev : Env.setMany (fun _ => none) (tensorParams f.params) args x with
                 | none => simp [hev] at hx
-                | some v => simp only [hev, Option.map_some] at hx; cases hx; exact ⟨v, rfl⟩
+                | some v => simp only [hev, Option.map_some] at hx; cases hx; exact fun _ => ⟨v, rfl⟩
               · intro x pv hx
                 obtain ⟨_, hx⟩ := restrict_some.mp hx
                 rw [hrelst] at hx
@@ -1818,8 +1842,8 @@ theorem convert_correct_if (S : Sem V) (hConst : ∀ l, ∃ c, constOf S l = som
                 simp only [List.mem_singleton] at hfr
                 subst hfr
                 exact setMany_defined _ _ _ x (by simpa using hlen.symm) (paramFrame_key _ x n hm)
-            obtain ⟨env', ev, hm⟩ := convTop_if_sim S fuel hConst hId f.body [paramFrame f.params] hil
-              (freeOf_paramFrame _ _ hattr) hinv hb he hc
+            obtain ⟨env', ev, hm⟩ := convTop_if_sim S fuel hConst hId hTL f.body [paramFrame f.params] hil
+              (freeOf_paramFrame _ _ hattr hPy) hinv hb he hc
             unfold evalGraph
             simp only [hlen, if_true, ev]
             exact hm
